@@ -8,10 +8,11 @@ import json
 from common import *
 import dialogue as D
 import c05
+from smtp import *
 
 ADDRS = [b"a@x.org", b"-b@y.org", b"-oQ/tmp@x.org", b"--@dash.example", b'"q\\"x"@z.org', b'"sp ace"@z.org', b'"back\\\\slash"@z.org',
          "josé@exämple.org".encode(), "用户@例え.jp".encode(), b"u@[127.0.0.1]", b"u@[IPv6:::1]", b"x+tag@sub.domain.example",
-         b"a" * 64 + b"@" + b"d" * 60 + b".org", b"'quote'@x.org", b"$%&!#*@x.org"]
+         b"a" * 64 + b"@" + b"d" * 60 + b".org", b"'quote'@x.org", b"$%&!#*@x.org", b'"user@inner"@example.net', b'"a@b@c"@[10.0.0.1]', b'"@"@x.org']
 
 
 def gen(rng, n):
@@ -144,6 +145,29 @@ def run(ctx):
             for a in c05.ACTIONS:
                 scs.append(c05.build_case(rng, nrcpt, p, a, b"hello\r\n"))
     bad, parsed, ml = D.run_differential(ctx, scs)
+    # large messages: the DATA-phase octets of the sync and the tokio client are the same octets (and the model's)
+    big = [b"\r\n." * 70000, b"." * 100000, b".\r\n" * 50000, b"3.14159 " * 9000, b"a\r\n.\r\n" * 30000, b"x" * 8191 + b"." + b"y" * 8191 + b"\r\n." * 10]
+    for k in range(11, 18):
+        big.append(bytes(rng.choice(b"\r\n..a") for _ in range(2 ** k + rng.randint(0, 7))))
+    wscs = []
+    for m in big:
+        for fl in ("sync", "tokio"):
+            wscs.append({"id": len(wscs), "flavor": fl, "timeout_ms": 3000, "servers": [happy_script(1)],
+                         "ops": [{"op": "connect", "hello": hx(b"c18.test")}, {"op": "send", "from": hx(b"a@x.org"), "to": [hx(b"b@y.org")], "msg": hx(m)}, {"op": "quit"}]})
+    wres = run_scenarios(wscs)
+    wires = run_model(["codec.wire\t" + hx(m) for m in big])
+    for k, m in enumerate(big):
+        ctx.count(2)
+        units = []
+        for r in wres[2 * k:2 * k + 2]:
+            srv = (r.get("servers") or [None])[0]
+            Rs = events_R(srv) if srv else []
+            units.append(b"".join(Rs[4:5]))
+        if units[0] != units[1]:
+            first = next((i for i in range(min(len(units[0]), len(units[1]))) if units[0][i] != units[1][i]), min(len(units[0]), len(units[1])))
+            obad.append((-1, "SMTP: the sync and the tokio client put different octets on the wire for the same %d-octet message (first difference at DATA octet %d)" % (len(m), first)))
+        elif hx(units[0]) != wires[k]:
+            cbad.append((-1, "SMTP: DATA-phase octets of a %d-octet message differ from the model's wire" % len(m)))
     ctx.cov["correspondence"]["smtp_sync_vs_tokio_vs_model"] = {"scenarios": len(scs), "flavors": ["sync", "tokio"], "disagreements": len(bad)}
     ctx.cov["correspondence"]["sinks"] = {"stub_file_cases": len(cases), "sendmail_runs": len(sm_cases), "disagreements": len(cbad)}
     ctx.cov["oracle"]["sink_readers_on_impl_output"] = {"failures": len(obad), "known_class_hits": hits}
